@@ -64,7 +64,7 @@ def gen_node(rng, bs, mix, depth, ctr, kinds, top=False, extra_ok=True, named=Fa
             ents.append([k, ["nt", rng.choice(["hello", "x", "a b", ""])]])
         elif r < 0.29 and "njt" in kinds and len(bs) == 1 and bs[0] > 0:
             ents.append([k, ["njt", rng.choice(["int64", "float32", "int16", "uint8"]), [rng.randrange(0, 4) for _ in range(bs[0])],
-                             rng.choice([[], [], [2]]), ctr[0]]])
+                             rng.choice([[], [], [2]]), ctr[0], rng.choice([None, False, True, True])]])
         elif r < 0.35 and r >= 0.32 and "tc" in kinds:
             ents.append([k, ["tc", gen_dtype(rng, [m for m in mix if m != 16] or [4]), ctr[0]]])
         elif r < 0.32 and "lazy" in kinds and depth > 0:
@@ -86,6 +86,13 @@ def gen_node(rng, bs, mix, depth, ctr, kinds, top=False, extra_ok=True, named=Fa
                 ents.append([k, gen_leaf(rng, bs, mix, ctr[0])])
         else:
             ents.append([k, gen_leaf(rng, bs, mix, ctr[0])])
+    # twins: a second tensor with the dtype / shape / layout of an existing one (re-binding them keeps the metadata equal)
+    tens = [e for e in ents if e[1][0] == "t"]
+    if tens and len(ents) < len(KEYS) and rng.random() < 0.45:
+        src = rng.choice(tens)
+        free = [k for k in KEYS if k not in [e[0] for e in ents]]
+        ctr[0] += 1
+        ents.insert(rng.randrange(len(ents) + 1), [rng.choice(free), ["t", src[1][1], list(src[1][2]), src[1][3], ctr[0]]])
     names = None
     if bs and top and named:
         names = [rng.choice(["x", "y", "z", "w", None]) for _ in bs]
@@ -145,7 +152,8 @@ def node_paths(td):
 def gen_op(rng, td, mix, ctr, post, only=None):
     """one history step valid for the live tensordict (structure inspected on the live object)"""
     ctr[0] += 1
-    kinds = ["set", "set", "set_", "set_", "copy_", "update_", "del", "rename", "lock", "unlock", "names", "newsub"]
+    kinds = ["set", "set", "set_", "set_", "copy_", "update_", "del", "rename", "lock", "unlock", "names", "newsub",
+             "swap", "swap", "alias"]
     k = rng.choice(list(only) if only else kinds)
     paths = node_paths(td)
     path = rng.choice(paths) if rng.random() < 0.35 else []
@@ -167,6 +175,15 @@ def gen_op(rng, td, mix, ctr, post, only=None):
         if not tks:
             return None
         return [k, path, rng.choice(tks), ctr[0]]
+    if k in ("swap", "alias"):
+        # structural re-binding of existing tensors; twins (same dtype and shape) keep the metadata what it was
+        if len(tks) < 2:
+            return None
+        spec = {kk: (node.get(kk).dtype, tuple(node.get(kk).shape)) for kk in tks}
+        pairs = [(a, b) for a in tks for b in tks if a != b]
+        twins = [(a, b) for (a, b) in pairs if spec[a] == spec[b]]
+        a, b = rng.choice(twins) if twins and rng.random() < 0.85 else rng.choice(pairs)
+        return [k, path, a, b]
     if k == "del":
         return ["del", path, rng.choice(used)] if used else None
     if k == "rename":
@@ -318,6 +335,8 @@ def touched(post_ops, diff):
         if field == "names" and k == "names":
             return True
         if field == "keys" and k in ("set", "del", "rename", "newsub") and list(op[1]) == comps:
+            return True
+        if k in ("swap", "alias") and (comps[:len(op[1]) + 1] in (list(op[1]) + [op[2]], list(op[1]) + [op[3]])):
             return True
         if k in ("set", "newsub", "del", "rename"):
             # the entry at [path] or an ancestor of it was rebound: everything below it (keys, values, metadata) is newer than the snapshot
@@ -737,6 +756,8 @@ def model_ops(td, op, scratch_td=None):
         except Exception:  # noqa: BLE001
             return None
         return [Sym("write"), list(op[1]), op[2], I.leaf_bytes(new)]
+    if k in ("swap", "alias"):
+        return [Sym(k), list(op[1]), op[2], op[3]]
     if k == "del":
         return [Sym("del"), list(op[1]), op[2]]
     if k == "rename":
@@ -775,8 +796,14 @@ def exec_case(case, plan):
         t0 = to_model(td)
         if t0 is None:
             modelable = False
+        aliased = False
         for op in case["ops"]:
             if not modelable:
+                break
+            if op[0] == "alias":
+                aliased = True
+            elif aliased and op[0] in WRITES:
+                modelable = False   # one tensor under two keys: an in-place write shows under both (the model keeps one copy per key)
                 break
             m = model_ops(td, op)
             if m is None:
@@ -795,6 +822,11 @@ def exec_case(case, plan):
         m = {"t0": t0, "ops": mops, "outcomes": [oc == "ok" for (_, oc) in log], "final": obs(td), "views": impl_views(td, storage),
              "consolidated": td.is_consolidated()}
         if storage is not None and td._consolidated.get("metadata") is not None:
+            guard_fn = getattr(__import__("tensordict._reductions", fromlist=["x"]), "_consolidated_is_current", None)
+            # (a 0-size tensor has no memory: whether the guard sees it as a view of the storage is a matter of null pointers)
+            if guard_fn is not None and all(n for (_, _, n) in I.flat_leaves(td)):
+                v = call(lambda: bool(guard_fn(td, td._consolidated)))
+                m["current"] = v[1] if v[0] == "ok" else "raise"
             m["storage"] = storage.reshape(-1).tolist()
             m["meta"] = meta_records(td._consolidated["metadata"])
         for (fmt, opt, before, outcome, after, ctx) in results:
@@ -849,7 +881,7 @@ def compare_model(R, recs):
             R.mismatch("protocol", case, "n/a", res)
             continue
         if kind == "hist":
-            outs, st, pk = res
+            outs, st, pk, cur_ok = res
             mo = [o == "t" for o in outs]
             if mo != m["outcomes"]:
                 R.mismatch("history:step-outcomes", case, m["outcomes"], mo)
@@ -874,6 +906,10 @@ def compare_model(R, recs):
                 if list(st[1][2]) != m["storage"]:
                     R.mismatch("consolidate:storage-bytes", case, m["storage"][:64], list(st[1][2])[:64])
                     continue
+            if "current" in m and m["current"] != (cur_ok == "t"):
+                # the guard of the reducer (_consolidated_is_current) against the model's snapshot_current
+                R.mismatch("pickle:snapshot-is-current-verdict", case, m["current"], cur_ok == "t")
+                continue
             if "pickle" in m:
                 if pk[0] == "raised":
                     if m["pickle"][0] == "ok":
@@ -1008,6 +1044,46 @@ def layout_grid(R, maxlen, sample):
             R.mismatch("decode:leaf", dict(case, leaf=j), want[:32], got)
 
 
+# ------------------------------------------------------------------ jagged nested tensors: 0..3 per node, with / without lengths
+def jagged_tree(flags, where, seed=0):
+    """[flags]: one bool per jagged tensor, in key order (True = built with lengths); a plain leaf sits between them"""
+    def ents(tag):
+        out = []
+        for i, fl in enumerate(flags):
+            out.append([f"{tag}j{i}", ["njt", ["int64", "float32", "int16"][(i + seed) % 3], [2 + (i + seed) % 2, 1, 3], [] if i % 2 == 0 else [2],
+                                       10 * i + seed + 1, fl]])
+            if i == 0:
+                out.append([f"{tag}m", ["t", "int8", [3], "plain", 7 + seed]])
+        return out
+    root = {"bs": [3], "names": None, "dev": None, "ents": []}
+    if where in ("root", "both"):
+        root["ents"] += ents("r")
+    root["ents"].append(["a", ["t", "float32", [3, 2], "plain", 3]])
+    if where in ("nested", "both"):
+        root["ents"].append(["n", ["td", {"bs": [3], "names": None, "dev": None, "ents": ents("n")}]])
+    return root
+
+
+def jagged_grid(R):
+    import itertools
+    recs = []
+    for where in ("root", "nested", "both"):
+        for n in range(0, 4):
+            for flags in itertools.product([True, False], repeat=n):
+                for nt in ((0, 2) if n else (0,)):
+                    tree = jagged_tree(list(flags), where, seed=n)
+                    for ops, plan in (([["consolidate", {"metadata": True, "num_threads": nt}]], [("pickle", {}), ("deepcopy", {})]),
+                                      ([], [("consolidate_file", {"num_threads": nt}), ("consolidate", {"num_threads": nt, "metadata": True})])):
+                        case = {"tree": tree, "ops": ops, "profile": "jagged-grid"}
+                        trace(dict(case, format=plan[0][0]))
+                        try:
+                            recs.append(exec_case(case, plan))
+                        except Exception as e:  # noqa: BLE001
+                            recs.append({"case": case, "results": [], "model": None, "crash": type(e).__name__ + ": " + str(e)[:200]})
+                        R.count("jagged-grid:%d-tensors" % n)
+    consume(R, recs)
+
+
 # ------------------------------------------------------------------ numpy structured arrays
 NP_DTYPES = ["uint8", "int8", "bool", "int16", "float16", "int32", "float32", "int64", "float64", "complex64", "complex128"]
 
@@ -1111,6 +1187,12 @@ def cross_process(R, n):
         if c is None or any(op[0] == "consolidate" and (op[1].get("file") or op[1].get("inplace")) for op in c["ops"]):
             continue
         cases.append(c)
+    # always: jagged tensors with lengths before one without (root and nested), and twins that traded places after consolidate()
+    for where in ("root", "nested"):
+        cases.append({"tree": jagged_tree([True, False, True], where, seed=1), "ops": [["consolidate", {"metadata": True}]], "profile": "jagged"})
+    cases.append({"tree": {"bs": [3], "names": None, "dev": None, "ents": [["a", ["t", "float32", [3], "plain", 1]], ["p", ["t", "int8", [3], "plain", 2]],
+                                                                            ["b", ["t", "float32", [3], "plain", 3]]]},
+                  "ops": [["consolidate", {"metadata": True}], ["swap", [], "a", "b"]], "profile": "swap"})
     orig = sp.get_preparation_data
 
     def no_main(name):  # the spawned child must not re-run harness.main (it has no __main__ guard); it imports harness.c11_child only
@@ -1396,6 +1478,7 @@ def main(R):
             layout_grid(R, 4, 6000)
         struct_grid(R, 2 if q else 3)
         reserved_keys(R)
+        jagged_grid(R)
     t0 = time.time()
     supervised(R, "layout-grid", sec_grid, 900 if q else 3000)
     R.extra["grid_wall_s"] = round(time.time() - t0, 1)
@@ -1442,6 +1525,7 @@ def replay(body):
     if ok and rec["model"]:
         res = run_model("C11", [sx([Sym("hist"), rec["model"]["t0"], rec["model"]["ops"]])])[0]
         print("model step outcomes:", res[0], " implementation:", rec["model"]["outcomes"])
+        print("snapshot is current -- model:", res[3], " implementation guard:", rec["model"].get("current"))
         print("model pickle round trip:", res[2][0], "" if res[2][0] == "raised" else json.dumps(model_obs(res[2][1][0]))[:600])
     elif not rec["model"]:
         print("model: the case is outside the modelled structures (lazy stack / jagged tensor / threaded non-contiguous)")
